@@ -1,5 +1,6 @@
 """Worker for C11: structured persistence (dict / JSON / python-literal / pickle) with the lazy-lattice flag."""
 import argparse
+import copy
 import hashlib
 import io
 import json
@@ -223,7 +224,15 @@ class Rec:
                 properties=[pp.get(x, -1) for x in d['properties']], context=[list(r) for r in d['context']],
                 haslat=lat is not None, judge=judge,
                 lattice=[[list(t) for t in c] for c in lat] if (lat is not None and judge) else [])
-        return d
+        # the result is the caller's own new dict: hand a deep copy on and vandalise the returned object in place;
+        # later exports of the same context must not notice
+        keep = copy.deepcopy(d)
+        for v in d.values():
+            if isinstance(v, list):
+                v.reverse()
+                del v[len(v) // 2:]
+        d.clear()
+        return keep
 
     def load(self, via, src, new, doc, stored, rng, orig, perm=False, ignore=False, require=False, raw=False):
         C = self.C
